@@ -392,6 +392,45 @@ def expectDiaDm (op state : Dia R) : R :=
     else 0).sum).sum
 end diaExpect
 
+/-! ### `expect_csr`, `expect_super_csr` -/
+section csrExpect
+variable {R : Type} [Add R] [Mul R] [OfNat R 0]
+
+/-- the first stored value of a row — what `data[row_index[row]]` reads when the row is not empty -/
+def rowHead? : Row R → Option R
+  | [] => none
+  | p :: _ => some p.2
+
+/-- the first stored value in column `j` of a row (the scan with `break` of `_expect_csr_dm`) -/
+def rowFirst (row : Row R) (j : Nat) : R :=
+  match row.find? (fun p => p.1 == j) with
+  | some p => p.2
+  | none => 0
+
+/-- a stored operator entry (column, value) times the ket's entry in that row — nothing when that row of the ket is
+empty (`if ptr_ket != row_index[col + 1]`) -/
+def ketTimes (state : CSR R) (p : Nat × R) : R :=
+  match rowHead? (state.r.getD p.1 []) with
+  | none => 0
+  | some w => p.2 * w
+
+/-- `_expect_csr_ket`: rows of the ket that are empty are skipped; of a stored row only the first entry is read -/
+def expectCsrKet (conj : R → R) (op state : CSR R) : R :=
+  ((List.range state.rows).map fun row =>
+    match rowHead? (state.r.getD row []) with
+    | none => 0
+    | some h => conj h * ((op.r.getD row []).map (ketTimes state)).sum).sum
+
+/-- `_expect_csr_dm` -/
+def expectCsrDm (op state : CSR R) : R :=
+  ((List.range op.rows).map fun row =>
+    ((op.r.getD row []).map fun p => p.2 * rowFirst (state.r.getD p.1 []) row).sum).sum
+
+/-- `expect_super_csr`: rows 0, n+1, 2(n+1), … of the superoperator (the column-stacked diagonal) -/
+def expectSuperCsr (n : Nat) (op state : CSR R) : R :=
+  ((List.range n).map fun k => ((op.r.getD (k * (n + 1)) []).map (ketTimes state)).sum).sum
+end csrExpect
+
 /-! ### the dispatcher: a specialisation built from a registered one and conversions -/
 
 /-- converters between formats preserve the matrix; `Repr f` is the carrier of format `f` -/
